@@ -15,7 +15,7 @@ func (x *Exec) doCall(st *State, fr *Frame, in ssa.Instruction, c *ssa.CallCommo
 		argv = append(argv, x.val(st, fr, a))
 	}
 	var fv Val
-	if c.IsInvoke() || c.StaticCallee() == nil {
+	if _, isClo := c.Value.(*ssa.MakeClosure); c.IsInvoke() || c.StaticCallee() == nil || isClo {
 		fv = x.val(st, fr, c.Value)
 	}
 	x.doCallVals(st, fr, c, fv, argv, in.Pos(), k)
@@ -73,6 +73,9 @@ func (x *Exec) doCallVals(st *State, fr *Frame, c *ssa.CallCommon, fv Val, argv 
 		x.reject("invoke of %s without iface contract (%s)", key, x.pos(pos))
 	}
 	callee := c.StaticCallee()
+	if fv.Clo != nil {
+		callee = nil
+	}
 	if callee == nil {
 		if fv.BI != "" {
 			k(st, x.doBuiltin(st, fv.BI, argv, c, rt, pos))
@@ -85,7 +88,12 @@ func (x *Exec) doCallVals(st *State, fr *Frame, c *ssa.CallCommon, fv Val, argv 
 		if fv.Fn != nil {
 			callee = fv.Fn
 		} else {
-			x.reject("call through unknown function value at %s", x.pos(pos))
+			if fc, ok := x.w.cs.Funcs["functype:"+namedKey(c.Value.Type())]; ok {
+				x.oblige(st, "safety:nil", x.site("callfn", pos), "", x.safetyTags, sNot(sEq(fv.S, "0")), pos, "call of nil function value")
+				x.applyContract(st, fc, argv, rt, pos, shortKey(namedKey(c.Value.Type())), k)
+				return
+			}
+			x.reject("call through unknown function value of type %s at %s", c.Value.Type(), x.pos(pos))
 		}
 	}
 	if callee.Signature.Recv() != nil && len(argv) > 0 {
@@ -114,7 +122,11 @@ func (x *Exec) doCallVals(st *State, fr *Frame, c *ssa.CallCommon, fv Val, argv 
 		return
 	}
 	// in-module helper without contract: inline (exact), bounded depth, no recursion
-	if callee.Pkg != nil && strings.HasPrefix(callee.Pkg.Pkg.Path(), modPath) && callee.Blocks != nil {
+	cpkg := callee.Pkg
+	if cpkg == nil && callee.Origin() != nil {
+		cpkg = callee.Origin().Pkg
+	}
+	if cpkg != nil && strings.HasPrefix(cpkg.Pkg.Path(), modPath) && callee.Blocks != nil {
 		if x.autoInlineOK(callee) {
 			x.inlined[shortKey(key)] = true
 			x.runInline(st, callee, argv, nil, fr.depth+1, k)
@@ -200,6 +212,38 @@ func (x *Exec) applyContract(st *State, fc *FuncContract, args []Val, rt types.T
 			label = fmt.Sprintf("requires%d", i)
 		}
 		x.oblige(st, "pre", site, label, rc.Tags, g, pos, rc.Src)
+	}
+	// termination: a call between functions that both carry a `decreases` measure must decrease it
+	if x.fc != nil && len(x.fc.Decr) > 0 && len(fc.Decr) > 0 {
+		callerEnv := &specEnv{w: x.w, pkg: x.fc.Pkg, vars: x.entryEnv, st: st, heap: x.initHeap}
+		var cm, dm []string
+		for _, d := range x.fc.Decr {
+			v, err := callerEnv.evalSafe(d.E)
+			if err != nil || v.Sort != "Int" {
+				x.reject("contract of %s: decreases %q: %v", x.fc.Key, d.Src, err)
+			}
+			cm = append(cm, v.S)
+		}
+		for _, d := range fc.Decr {
+			v, err := env.evalSafe(d.E)
+			if err != nil || v.Sort != "Int" {
+				x.reject("contract of %s: decreases %q: %v", fc.Key, d.Src, err)
+			}
+			dm = append(dm, v.S)
+		}
+		n := len(cm)
+		if len(dm) < n {
+			n = len(dm)
+		}
+		lt := "false"
+		for i := n - 1; i >= 0; i-- {
+			lt = sOr("(< "+dm[i]+" "+cm[i]+")", sAnd(sEq(dm[i], cm[i]), lt))
+		}
+		var nonneg []string
+		for _, m := range dm {
+			nonneg = append(nonneg, "(>= "+m+" 0)")
+		}
+		x.oblige(st, "decreases", site, "", []string{"C08"}, sAnd(append(nonneg, lt)...), pos, "termination measure decreases (lexicographic): "+fc.Decr[0].Src+", ...")
 	}
 	if fc.NoReturn {
 		return
